@@ -123,13 +123,13 @@ func (cw *codecWorld) put(v tval) error {
 		op = "put str " + orc.Payload(v.s)
 	case "strbytes":
 		err = cw.enM.PutStringBytes(bg, v.s)
-		op = "put str " + orc.Payload(v.s)
+		op = "put strbytes " + orc.Payload(v.s) // own model op: its large branch cuts frames differently from PutString's
 	case "dbl":
 		err = cw.enM.PutDouble(bg, v.f)
 		op = fmt.Sprintf("put dbl %d", math.Float64bits(v.f))
 	case "bytes":
 		err = cw.enM.PutBytes(bg, v.s)
-		op = "put bytes " + orc.Payload(v.s)
+		op = "put bytes " + runPayload(v.s)
 	}
 	if err != nil {
 		cw.w.a.c.TakeOut()
@@ -304,6 +304,51 @@ func randVal(c *Ctx) tval {
 	}
 }
 
+const largePost = 0x0102030405060708
+
+// putPost: an integer after the large value (not when the reader drains the message with GetRemainingBytes)
+func (cw *codecWorld) putPost(skip bool) error {
+	if skip {
+		return nil
+	}
+	return cw.put(tval{kind: "int", i: largePost})
+}
+
+// largeContent: strings stay a constant fill (the C-string reader of the oracle is linear but slow);
+// raw bytes get position-dependent content in blocks (fill runs joined by '+' in the op line), so a
+// dropped, duplicated or reordered chunk shows in the value and in its digest.
+func largeContent(kind string, n int) []byte {
+	if kind != "bytes" {
+		return fillBytes(n, 0x51)
+	}
+	b := make([]byte, n)
+	for i := range b {
+		b[i] = byte(0x30 + (i/65536)%64)
+	}
+	return b
+}
+
+// runPayload: large values made of a few constant runs travel as fill:<n>:<byte> parts joined by '+'
+// (the oracle's payload syntax); everything else as orc.Payload renders it.
+func runPayload(b []byte) string {
+	if len(b) < 4096 {
+		return orc.Payload(b)
+	}
+	var parts []string
+	for i := 0; i < len(b); {
+		j := i
+		for j < len(b) && b[j] == b[i] {
+			j++
+		}
+		parts = append(parts, fmt.Sprintf("fill:%d:%02x", j-i, b[i]))
+		if len(parts) > 128 {
+			return orc.Payload(b)
+		}
+		i = j
+	}
+	return strings.Join(parts, "+")
+}
+
 func getKind(k string) string {
 	if k == "strbytes" {
 		return "str"
@@ -456,16 +501,31 @@ func runCodec(c *Ctx) error {
 	}
 	for enc := 0; enc < 2; enc++ {
 		for _, sz := range sizes {
-			for _, kind := range []string{"bytes", "str"} {
+			for _, kind := range []string{"bytes", "str", "strbytes", "bytes-rest"} {
 				if kind == "str" && !c.Thorough() && sz != MiB-9 && sz != MiB-33 && sz != MiB && sz != MiB-41 && sz != MiB-40 {
 					continue
+				}
+				// PutStringBytes around the threshold of its large branch (len+1 [+8] > frame payload limit) and
+				// well above it; GetRemainingBytes on a value spanning several frames
+				if kind == "strbytes" && !c.Thorough() && sz != MiB-40 && sz != MiB-1 && sz != MiB && sz != 2*MiB+5 {
+					continue
+				}
+				if kind == "bytes-rest" && !c.Thorough() && sz != MiB+1 && sz != 2*MiB+5 {
+					continue
+				}
+				readRest := kind == "bytes-rest"
+				if readRest {
+					kind = "bytes"
 				}
 				cw := newCodecWorld(c, enc == 1)
 				pre := tval{kind: "int", i: 7}
 				_ = cw.put(pre)
-				v := tval{kind: kind, s: fillBytes(sz, 0x51)}
+				v := tval{kind: kind, s: largeContent(kind, sz)}
 				if err := cw.put(v); err != nil {
 					c.Violate(Violation{Property: "C01", Key: "C01:typed-put-rejected-large:" + kind + ":" + b01(enc == 1), What: "the typed layer refused a large value instead of splitting it",
+						Ops: cw.ops, Expected: "ok", Observed: err.Error()})
+				} else if err := cw.putPost(readRest); err != nil {
+					c.Violate(Violation{Property: "C01", Key: "C01:typed-put-rejected-after-large:" + kind + ":" + b01(enc == 1), What: "the typed layer refused a value following a large one",
 						Ops: cw.ops, Expected: "ok", Observed: err.Error()})
 				} else if err := cw.finish(); err != nil {
 					c.Violate(Violation{Property: "C01", Key: "C01:typed-finish-rejected-large:" + kind + ":" + b01(enc == 1), What: "FinishMessage failed after a large value",
@@ -473,10 +533,24 @@ func runCodec(c *Ctx) error {
 				} else {
 					g0, err := cw.get("int", 0)
 					if err == nil {
-						g, err2 := cw.get(kind, sz)
+						rk := getKind(kind)
+						if readRest {
+							rk = "rest"
+						}
+						g, err2 := cw.get(rk, sz)
 						err = err2
 						if err == nil && (g0.i != 7 || !bytes.Equal(g.s, v.s)) {
 							c.Violate(Violation{Property: "C01", Key: "C01:typed-large-differs:" + kind, What: "large value differs", Ops: cw.ops, Expected: orc.ShowBytes(v.s), Observed: orc.ShowBytes(g.s)})
+						}
+						if err == nil && !readRest {
+							// the value FOLLOWING the large one: a length prefix or terminator that is off by one
+							// leaves the large value intact and shifts everything after it
+							g1, err3 := cw.get("int", 0)
+							err = err3
+							if err == nil && g1.i != largePost {
+								c.Violate(Violation{Property: "C01", Key: "C01:typed-after-large-differs:" + kind + ":" + b01(enc == 1), What: "the value following a large one is not received as sent (the large value consumed too few or too many bytes)",
+									Ops: cw.ops, Expected: fmt.Sprint(int64(largePost)), Observed: fmt.Sprint(g1.i)})
+							}
 						}
 					}
 					if err != nil {
